@@ -27,15 +27,16 @@ META = {
         'The model is tied to the current client by executing the real client on stored, freshly simulated (every economic model x '
         'end-use x plant cell, output-unit conversions, examples) and synthetic reports and comparing every field, table, the raising '
         'behaviour and the csv rows inside Coq (vm_compute); the property itself is evaluated on the real client against an '
-        'independent tokenisation of each report, under PYTHONHASHSEED 0/1/2, and the .json quantities are compared with the printed '
-        'figures by the Coq checker json_agrees (sound: C10_json_rounds). Only tied, not proved: header reconstruction of the two '
+        'independent tokenisation of each report, under PYTHONHASHSEED 0/1/2, and the .json quantities (every equally-named report line, plus every '
+        'figure of the S-DAC-GT and add-on sections and profiles through a reviewed label/column -> entry map; a missing entry is a violation) are '
+        'compared with the printed figures by the Coq checker json_agrees (sound: C10_json_rounds). Only tied, not proved: header reconstruction of the two '
         'production profiles, the carbon-revenue view, _parse_number against Python float().'),
     'level_note': (
         'Trusted: Coq kernel + vm_compute; the Python harness (runs the simulator and the client, the independent tokeniser, the '
         'literals handed to Coq); Python float()/int()/csv/re/str semantics are modelled by hand for ASCII text (reports are ASCII); '
         'a float returned by the client is compared with the decimal the model read within 1e-15 relative. Three defects of the '
         'pinned tree are recorded as known findings (C10-F1 two-unit duplicate label + set.pop(), C10-F2 BICYCLE equal-sign label, '
-        'C10-F3 .json overwritten by the add-on economics object).'),
+        'C10-F3 base-economics .json entries overwritten by the add-on dict (26 listed labels) resp. LCOH by the S-DAC-GT dict, C10-F4 SUTRA Interest Rate).'),
     'technique': 'Coq proof about an executable Gallina model + kernel-evaluated correspondence with the implementation',
     'rule': (
         'reports = corpus seeds + every stored report under tests/ + fresh simulations (all economic model x end-use x plant cells, '
